@@ -21,7 +21,7 @@ for pid in ALL:
         evidence_file="/verif/evidence/%s.json" % pid,
         replay_cmd_template="bin/check --replay {path}",
         engine="ir2c+cbmc",
-        level_claimed=dict(category=P.get("level", "model_checking"), text=text[:4000], design_ref="DESIGN.md section 4, " + pid),
+        level_claimed=dict(category=P.get("level", "model_checking"), text=text[:4000], design_ref="DESIGN.md section 5, " + pid),
         level_note=("Holds for all inputs inside the bounds listed per obligation in the evidence file (unwinding assertions on). "
                     "Trusted base: clang-14 IR of the real sources, tool/ir2c.py (validated on concrete vectors each run), models/models.c "
                     "(libc/libsupc++ boundary, heap model with exact size check), CBMC 6.11. Outside the claim: " + P.get("outside", "")),
